@@ -84,7 +84,7 @@ theorem satV_mono {E : Env} {A A' : Assign} (h : ALe A A') :
       (fun t e => h.names _ _ (ht t e))
   | _, _, .orB id name tagVar tags alts v i alt hb hf ha hs ht =>
     .orB id name tagVar tags alts v i alt (boundTo_mono h _ _ _ hb) hf ha (satV_mono h hs)
-      (fun t e => let ⟨tg, h1, h2⟩ := ht t e; ⟨tg, h1, h.names _ _ h2⟩)
+      (fun t e => h.names _ _ (ht t e))
 theorem satN_mono {E : Env} {A A' : Assign} (h : ALe A A') :
     ∀ {np : NPId} {n : NodeId}, SatN E A np n → SatN E A' np n
   | _, _, .mk np n P N h1 h2 h3 h4 h5 h6 h7 h8 h9 h10 =>
